@@ -70,16 +70,21 @@ Do ==
 
 \* a call that failed: nothing of it is visible.  (Bookkeeping that no query shows - a
 \* consumed blob id, a freshly created empty active blob - is allowed.)
+\* (the driver numbers every data call, also a failed one: the value id is consumed)
+OpnAfterFailure == opn' = IF E.a \in {"write", "delete"} THEN opn + 1 ELSE opn
 NoEffect ==
-  \/ UNCHANGED vars
+  \/ /\ UNCHANGED <<blob, active, slots, nextId, usedIds, quar, worker, agedIds, act, ret>>
+     /\ OpnAfterFailure
   \/ /\ E.a \in {"write", "delete", "create_active", "force_update"}
      /\ active = None
      /\ blob' = WithNew(blob, nextId) /\ active' = nextId /\ nextId' = nextId + 1
      /\ usedIds' = usedIds \cup {nextId}
-     /\ UNCHANGED <<slots, quar, worker, agedIds, opn, act, ret>>
+     /\ OpnAfterFailure
+     /\ UNCHANGED <<slots, quar, worker, agedIds, act, ret>>
   \/ /\ E.a \in {"write", "delete", "create_active", "force_update"}
      /\ nextId' = nextId + 1 /\ usedIds' = usedIds \cup {nextId}
-     /\ UNCHANGED <<blob, active, slots, quar, worker, agedIds, opn, act, ret>>
+     /\ OpnAfterFailure
+     /\ UNCHANGED <<blob, active, slots, quar, worker, agedIds, act, ret>>
 
 \* a delete during which a fault was injected and which still returned a count: the markers
 \* of any sub-set of the specified blobs (failures in closed blobs are logged, not returned)
@@ -102,6 +107,7 @@ Step ==
   CASE E.mode = "normal"   -> Do /\ RetOK
     [] E.mode = "failed"   -> NoEffect
     [] E.mode = "degraded" -> (Do /\ RetOK) \/ PartialDelete
+                              \/ (E.a \notin {"write", "delete"} /\ NoEffect)   \* background work failed and was logged
     [] E.mode = "maybe"    -> Do \/ NoEffect
     [] OTHER -> FALSE
 
